@@ -120,7 +120,7 @@ def run(tier):
         blocks.append((cfg, acts))
     # key tables with collisions spread over the members
     stems = ["in", "input", "out", "output", "v", "verbose", "num"]
-    for _ in range(60 if tier == "quick" else 1500):
+    for _ in range(150 if tier == "quick" else 3000):
         keys = []
         for _ in range(g.r.randint(2, 6)):
             l = g.r.choice(stems) if g.r.random() < 0.8 else ""
@@ -128,6 +128,15 @@ def run(tier):
             if len(l) == 1:
                 l = ""
             keys.append((s, T(l)))
+        # clashes of every form between two members: same long with different shorts, same short with different longs,
+        # both-key against long-only / short-only
+        if g.r.random() < 0.7:
+            l = g.r.choice([x for x in stems if len(x) > 1]); s1, s2 = g.r.sample("cdefg", 2)
+            form = g.r.randrange(4)
+            pair = [(ord(s1), T(l)), (ord(s2), T(l))] if form == 0 else [(ord(s1), T(l)), (ord(s1), T(l + "x"))] if form == 1 else \
+                   [(ord(s1), T(l)), (0, T(l))] if form == 2 else [(ord(s1), T(l)), (ord(s1), [])]
+            pos = g.r.randint(0, len(keys))
+            keys[pos:pos] = pair if g.r.random() < 0.5 else pair[::-1]
         cfg = {"abbr": True, "endvalues": False, "hcons": [], "args": [], "lenient": True}
         for n_, (s, l) in enumerate(keys):
             a = arggen.new_arg("int"); a["s"], a["l"], a["init"], a["grp"] = s, l, -(n_ + 1), g.r.randrange(3)
